@@ -337,6 +337,8 @@ type fakePG struct {
 	mu      sync.Mutex
 	conns   []net.Conn
 	sentAll time.Time // first time a connection had every scripted message written
+	starts  []uint64  // LSN of every START_REPLICATION received
+	noStream bool     // connmgr: answer START_REPLICATION with CopyBoth and then just keep the connection
 	closed  chan struct{}
 	wg      sync.WaitGroup
 }
@@ -492,7 +494,20 @@ startup:
 				start = hi<<32 | lo
 			}
 			atomic.AddInt64(&e2eReplStarts, 1)
+			s.mu.Lock()
+			s.starts = append(s.starts, start)
+			s.mu.Unlock()
 			be.Send(&pgproto3.CopyBothResponse{OverallFormat: 0})
+			if s.noStream {
+				if be.Flush() != nil {
+					return
+				}
+				for { // hold the connection until the client or the harness closes it
+					if _, err := be.Receive(); err != nil {
+						return
+					}
+				}
+			}
 			s.stream(be, c, start)
 			return
 		default:
@@ -826,10 +841,16 @@ var e2ePatPool = []string{"^public\\.a$", "public\\..*", "^s\\.", "a", "^audit\\
 func e2eGen(r *Rng, tier string) Case {
 	mode := Pick(r, []string{"flags", "flags", "flagseq", "env", "env", "envsp"})
 	kind := Pick(r, []string{"wl", "bl", "wlr", "blr", "wl", "bl", "wlr", "blr", "none"})
-	// the tables of this case: 2-4 distinct relations
+	// the tables of this case: 2-4 distinct relations. With options given as flags an entry may contain
+	// a comma (a quoted identifier such as public."a,b"); through the environment it cannot (cli.v1
+	// splits environment values on commas), so those modes keep to comma-free names.
+	pool := e2eRelPool
+	if mode == "flags" || mode == "flagseq" {
+		pool = append(append([]string{}, e2eRelPool...), "public.\"a,b\"", "public.\"a,b\"", "s.\"x, y\"")
+	}
 	tables := []string{}
 	for n := r.Range(2, 4); len(tables) < n; {
-		t := Pick(r, e2eRelPool)
+		t := Pick(r, pool)
 		dup := false
 		for _, x := range tables {
 			dup = dup || x == t
@@ -847,7 +868,7 @@ func e2eGen(r *Rng, tier string) Case {
 			case r.Chance(75):
 				list = append(list, Pick(r, tables))
 			default:
-				list = append(list, Pick(r, e2eRelPool))
+				list = append(list, Pick(r, pool))
 			}
 		}
 	}
